@@ -3,6 +3,7 @@ C12 (part b) and C03 (distinctness): the partial-signature cache of internal/cha
 Model: Drand/Beacon/Cache.lean. All statements are for every sequence of Append / FlushRounds operations.
 -/
 import Drand.Beacon.Cache
+import Gen.CacheRules
 
 namespace Drand.Beacon
 open Drand
@@ -15,7 +16,8 @@ def Cache.apply (c : Cache) : COp → Cache
   | .append p => (c.append p).1
   | .flush r => c.flush r
 
-def Cache.run (sigLen : Nat) (ops : List COp) : Cache := ops.foldl Cache.apply (Cache.empty sigLen)
+/-- the cache machine from the empty cache; `replace` is the variant (what `roundCache.append` does on a cached index) -/
+def Cache.run (sigLen : Nat) (ops : List COp) (replace : Bool := false) : Cache := ops.foldl Cache.apply (Cache.empty sigLen replace)
 
 def keysNodup {κ ν : Type} (l : List (κ × ν)) : Prop := (l.map (·.1)).Nodup
 
@@ -156,8 +158,8 @@ private theorem sigOf_eq (c : Cache) (id : RId) (idx : Nat) :
     c.sigOf id idx = (aget id c.rounds).bind (fun r => aget idx r.sigs) := by
   unfold Cache.sigOf; cases aget id c.rounds <;> rfl
 
-private theorem rcvdOf_aset (sl : Nat) (rs : List (RId × RoundCache)) (rc : List (Nat × List RId)) (i j : Nat) (l : List RId) :
-    (Cache.mk sl rs (aset i l rc)).rcvdOf j = if j = i then l else (aget j rc).getD [] := by
+private theorem rcvdOf_aset (sl : Nat) (rs : List (RId × RoundCache)) (rc : List (Nat × List RId)) (rp : Bool) (i j : Nat) (l : List RId) :
+    (Cache.mk sl rs (aset i l rc) rp).rcvdOf j = if j = i then l else (aget j rc).getD [] := by
   simp only [Cache.rcvdOf, aget_aset]; split <;> simp
 
 private theorem inv_addSig {c : Cache} (h : Inv0 c) {id : RId} {r : RoundCache} {i : Nat} (sig : Bytes)
@@ -621,16 +623,90 @@ private def appended (c' : Cache) (id : RId) (r : RoundCache) (i : Nat) (sig : B
   { c' with rounds := aset id { r with sigs := r.sigs ++ [(i, sig)] } c'.rounds,
             rcvd := aset i (c'.rcvdOf i ++ [id]) c'.rcvd }
 
+/-- the cache after `Append` of a partial of signer `i` that round cache `id` already holds, variant "newest wins" -/
+private def replaced (c : Cache) (id : RId) (r : RoundCache) (i : Nat) (sig : Bytes) : Cache :=
+  { c with rounds := aset id { r with sigs := aset i sig r.sigs } c.rounds }
+
 private theorem append_seen {c : Cache} {p : Partial} {i : Nat} {s : Bytes}
     (hi : indexOf c.sigLen p.psig = some i) (hs : c.sigOf (p.round, p.prev) i = some s) :
-    c.append p = (c, .ok) := by
+    ∃ r, aget (p.round, p.prev) c.rounds = some r ∧ aget i r.sigs = some s ∧
+      c.append p = (if c.replace then replaced c (p.round, p.prev) r i p.psig else c, .ok) := by
   rw [sigOf_eq] at hs
   cases hR : aget (p.round, p.prev) c.rounds with
   | none => rw [hR] at hs; simp at hs
   | some r =>
     rw [hR] at hs
     have hs' : aget i r.sigs = some s := hs
-    simp [Cache.append, hi, getCache_seen hi hR hs', RoundCache.append, hs']
+    refine ⟨r, rfl, hs', ?_⟩
+    cases hrep : c.replace <;>
+      simp [Cache.append, hi, getCache_seen hi hR hs', RoundCache.append, hs', hrep, replaced]
+
+private theorem keys_aset_of_mem {κ ν : Type} [DecidableEq κ] (k : κ) (v : ν) (l : List (κ × ν)) (h : (aget k l).isSome) :
+    (aset k v l).map (·.1) = l.map (·.1) := by
+  induction l with
+  | nil => simp [aget] at h
+  | cons hd t ih =>
+    obtain ⟨a, b⟩ := hd
+    simp only [aset]
+    split
+    · subst_vars; rfl
+    · rename_i hne
+      simp only [aget, hne, if_false] at h
+      simp [ih h]
+
+/-- replacing the bytes cached for a signer that is already in the round cache changes nothing the bookkeeping reads -/
+private theorem sigOf_replaced (c : Cache) (id : RId) (r : RoundCache) (i : Nat) (sig : Bytes) (id' : RId) (j : Nat) :
+    (replaced c id r i sig).sigOf id' j = if id' = id then (if j = i then some sig else aget j r.sigs) else c.sigOf id' j := by
+  rw [sigOf_eq, sigOf_eq]
+  unfold replaced
+  simp only [aget_aset]
+  split
+  · simp only [Option.bind, aget_aset]
+  · rfl
+
+private theorem inv_replaced {c : Cache} (h : Inv0 c) {id : RId} {r : RoundCache} {i : Nat} {s : Bytes} (sig : Bytes)
+    (hR : aget id c.rounds = some r) (hs : aget i r.sigs = some s) : Inv0 (replaced c id r i sig) := by
+  have hso : ∀ id' j, ((replaced c id r i sig).sigOf id' j).isSome = (c.sigOf id' j).isSome := by
+    intro id' j
+    rw [sigOf_replaced]
+    split
+    · subst_vars
+      rw [sigOf_eq, hR]
+      split
+      · subst_vars; simp [hs]
+      · rfl
+    · rfl
+  refine ⟨keysNodup_aset _ _ _ h.roundsNodup, h.rcvdNodup, ?_, ?_, h.listNodup, ?_⟩
+  · intro id' r'
+    unfold replaced
+    simp only [aget_aset]
+    split
+    · intro h'; cases h'
+      exact keysNodup_aset _ _ _ (h.sigsNodup _ _ hR)
+    · exact h.sigsNodup _ _
+  · intro id' r'
+    unfold replaced
+    simp only [aget_aset]
+    split
+    · intro h'; cases h'; subst_vars
+      exact h.idOk _ r hR
+    · exact h.idOk _ _
+  · intro j id'
+    rw [hso]
+    exact h.listed j id'
+
+private theorem nonEmpty_replaced {c : Cache} (hne : NonEmpty c) {id : RId} {r : RoundCache} {i : Nat} (sig : Bytes)
+    (_hR : aget id c.rounds = some r) : NonEmpty (replaced c id r i sig) := by
+  intro id' r'
+  unfold replaced
+  simp only [aget_aset]
+  split
+  · intro h'; cases h'
+    intro hc
+    have h1 : (aget i (aset i sig r.sigs)).isSome := by rw [aget_aset]; simp
+    have hc' : aset i sig r.sigs = [] := hc
+    rw [hc'] at h1; simp [aget] at h1
+  · exact hne _ _
 
 private theorem append_unseen_eq {c c' : Cache} {p : Partial} {i : Nat} {r : RoundCache}
     (hi : indexOf c.sigLen p.psig = some i) (hg : c.getCache (p.round, p.prev) p = (c', .ok r))
@@ -703,7 +779,13 @@ private theorem cacheInv_append {c : Cache} (p : Partial) (h : CacheInv c) : Cac
   | none => rw [append_malformed hi]; exact h
   | some i =>
     cases hs : c.sigOf (p.round, p.prev) i with
-    | some s => rw [append_seen hi hs]; exact h
+    | some s =>
+      obtain ⟨r, hR, hsr, he⟩ := append_seen hi hs
+      rw [he]
+      cases hrep : c.replace with
+      | false => exact h
+      | true =>
+        exact cacheInv_of (inv_replaced h.inv0 p.psig hR hsr) (nonEmpty_replaced h.nonEmpty p.psig hR) h.bound
     | none =>
       obtain ⟨c'', he, sp⟩ := append_unseen h.inv0 hi hs
       rw [he]
@@ -718,7 +800,7 @@ private theorem cacheInv_apply {c : Cache} (op : COp) (h : CacheInv c) : CacheIn
   | append p => exact cacheInv_append p h
   | flush r => exact cacheInv_flush r h
 
-private theorem cacheInv_empty (sigLen : Nat) : CacheInv (Cache.empty sigLen) := by
+private theorem cacheInv_empty (sigLen : Nat) (rep : Bool) : CacheInv (Cache.empty sigLen rep) := by
   refine ⟨?_, ?_, ?_, ?_, ?_, ?_, ?_, ?_⟩ <;>
     simp [Cache.empty, keysNodup, aget, Cache.rcvdOf, Cache.sigOf]
 
@@ -728,20 +810,20 @@ private theorem cacheInv_foldl (ops : List COp) (c : Cache) (h : CacheInv c) :
   | nil => exact h
   | cons op t ih => exact ih _ (cacheInv_apply op h)
 
-theorem c12_cache_inv (sigLen : Nat) (ops : List COp) : CacheInv (Cache.run sigLen ops) :=
-  cacheInv_foldl ops _ (cacheInv_empty sigLen)
+theorem c12_cache_inv (sigLen : Nat) (ops : List COp) (rep : Bool := false) : CacheInv (Cache.run sigLen ops rep) :=
+  cacheInv_foldl ops _ (cacheInv_empty sigLen rep)
 
 /-- memory per signer is bounded by the quota, whatever rounds / previous signatures the signer signs -/
-theorem c12_cache_bound (sigLen : Nat) (ops : List COp) (idx : Nat) :
-    ((Cache.run sigLen ops).rcvdOf idx).length ≤ maxPartials :=
-  (c12_cache_inv sigLen ops).bound idx
+theorem c12_cache_bound (sigLen : Nat) (ops : List COp) (idx : Nat) (rep : Bool := false) :
+    ((Cache.run sigLen ops rep).rcvdOf idx).length ≤ maxPartials :=
+  (c12_cache_inv sigLen ops rep).bound idx
 
 /-- the number of round caches is bounded by (number of signers seen) × quota: every round cache holds at least one
 partial, so it is listed by at least one signer -/
-theorem c12_rounds_listed (sigLen : Nat) (ops : List COp) (id : RId) (r : RoundCache)
-    (h : aget id (Cache.run sigLen ops).rounds = some r) :
-    ∃ idx, id ∈ (Cache.run sigLen ops).rcvdOf idx := by
-  have hinv := c12_cache_inv sigLen ops
+theorem c12_rounds_listed (sigLen : Nat) (ops : List COp) (id : RId) (r : RoundCache) (rep : Bool := false)
+    (h : aget id (Cache.run sigLen ops rep).rounds = some r) :
+    ∃ idx, id ∈ (Cache.run sigLen ops rep).rcvdOf idx := by
+  have hinv := c12_cache_inv sigLen ops rep
   have hne := hinv.nonEmpty id r h
   cases hsg : r.sigs with
   | nil => exact absurd hsg hne
@@ -758,7 +840,7 @@ theorem c12_no_wedge (c : Cache) (p : Partial) (h : CacheInv c) (hm : 0 < maxPar
   | none => rw [append_malformed hi]; simp
   | some i =>
     cases hs : c.sigOf (p.round, p.prev) i with
-    | some s => rw [append_seen hi hs]; simp
+    | some s => obtain ⟨r, _, _, he⟩ := append_seen hi hs; rw [he]; simp
     | none =>
       obtain ⟨c'', he, _⟩ := append_unseen h.inv0 hi hs
       rw [he]; simp
@@ -777,7 +859,19 @@ theorem c12_isolation (c : Cache) (p : Partial) (i j : Nat) (id : RId) (s : Byte
     (hi : indexOf c.sigLen p.psig = some i) (hij : j ≠ i) (hs : c.sigOf id j = some s) :
     (c.append p).1.sigOf id j = some s := by
   cases hs' : c.sigOf (p.round, p.prev) i with
-  | some s' => rw [append_seen hi hs']; exact hs
+  | some s' =>
+    obtain ⟨r, hR, _, he⟩ := append_seen hi hs'
+    rw [he]
+    cases hrep : c.replace with
+    | false => exact hs
+    | true =>
+      simp only [if_true]
+      rw [sigOf_replaced]
+      split
+      · subst_vars
+        rw [sigOf_eq, hR] at hs
+        exact hs
+      · exact hs
   | none =>
     obtain ⟨c'', he, sp⟩ := append_unseen h.inv0 hi hs'
     rw [he]
@@ -785,15 +879,59 @@ theorem c12_isolation (c : Cache) (p : Partial) (i j : Nat) (id : RId) (s : Byte
 
 /-- C03: within a round cache every signer index occurs at most once, so `Len()` counts distinct signers; a second
 partial from the same index for the same (round, prev) changes nothing -/
-theorem c03_distinct (sigLen : Nat) (ops : List COp) (id : RId) (r : RoundCache)
-    (h : aget id (Cache.run sigLen ops).rounds = some r) : keysNodup r.sigs :=
-  (c12_cache_inv sigLen ops).sigsNodup id r h
+theorem c03_distinct (sigLen : Nat) (ops : List COp) (id : RId) (r : RoundCache) (rep : Bool := false)
+    (h : aget id (Cache.run sigLen ops rep).rounds = some r) : keysNodup r.sigs :=
+  (c12_cache_inv sigLen ops rep).sigsNodup id r h
 
-theorem c03_duplicate_ignored (c : Cache) (p : Partial) (idx : Nat) (s : Bytes) (h : CacheInv c)
+/-- a second partial from the same index for the same (round, prev) still counts once, in both variants: the answer is ok,
+no per-signer list and no round cache changes its length, no other cached partial changes; "first wins": the cache is
+unchanged; "newest wins": the bytes cached for that index in that round cache are now the new partial's -/
+theorem append_duplicate (c : Cache) (p : Partial) (idx : Nat) (s : Bytes)
     (hi : indexOf c.sigLen p.psig = some idx) (hs : c.sigOf (p.round, p.prev) idx = some s) :
-    (c.append p).1 = c ∧ (c.append p).2 = .ok := by
-  have _ := h
-  rw [append_seen hi hs]; exact ⟨rfl, rfl⟩
+    (c.append p).2 = .ok ∧ (c.replace = false → (c.append p).1 = c) ∧
+    (c.append p).1.rcvd = c.rcvd ∧
+    (∀ rd pv, (c.append p).1.roundLen rd pv = c.roundLen rd pv) ∧
+    (∀ id' j, ¬ (id' = (p.round, p.prev) ∧ j = idx) → (c.append p).1.sigOf id' j = c.sigOf id' j) ∧
+    (c.replace = true → (c.append p).1.sigOf (p.round, p.prev) idx = some p.psig) := by
+  obtain ⟨r, hR, hsr, he⟩ := append_seen hi hs
+  rw [he]
+  cases hrep : c.replace with
+  | false => exact ⟨rfl, fun _ => rfl, rfl, fun _ _ => rfl, fun _ _ _ => rfl, fun hc => (by cases hc)⟩
+  | true =>
+    simp only [if_true]
+    refine ⟨?_, ?_, ?_, ?_, ?_, ?_⟩
+    · first | rfl | trivial
+    · intro hc; cases hc
+    · first | rfl | trivial
+    · intro rd pv
+      unfold Cache.roundLen replaced
+      simp only [aget_aset]
+      split
+      · next hid =>
+        rw [hid, hR]
+        have hk := keys_aset_of_mem idx p.psig r.sigs (by rw [hsr]; rfl)
+        have := congrArg List.length hk
+        simpa using this
+      · rfl
+    · intro id' j hne
+      rw [sigOf_replaced]
+      split
+      · next hid =>
+        have hj : j ≠ idx := fun hj => hne ⟨hid, hj⟩
+        simp only [hj, if_false]
+        rw [hid, sigOf_eq, hR]; rfl
+      · rfl
+    · intro _
+      rw [sigOf_replaced]; simp
+
+theorem c03_duplicate_ignored (c : Cache) (p : Partial) (idx : Nat) (s : Bytes) (_h : CacheInv c)
+    (hi : indexOf c.sigLen p.psig = some idx) (hs : c.sigOf (p.round, p.prev) idx = some s) :
+    (c.append p).2 = .ok ∧ (c.replace = false → (c.append p).1 = c) ∧
+    (c.append p).1.rcvd = c.rcvd ∧
+    (∀ rd pv, (c.append p).1.roundLen rd pv = c.roundLen rd pv) ∧
+    (∀ id' j, ¬ (id' = (p.round, p.prev) ∧ j = idx) → (c.append p).1.sigOf id' j = c.sigOf id' j) ∧
+    (c.replace = true → (c.append p).1.sigOf (p.round, p.prev) idx = some p.psig) :=
+  append_duplicate c p idx s hi hs
 
 /-- a malformed partial signature (wrong length) is rejected and changes nothing -/
 theorem c03_malformed_ignored (c : Cache) (p : Partial) (hi : indexOf c.sigLen p.psig = none) :
@@ -810,7 +948,25 @@ theorem c12_flush_exact (c : Cache) (round : Nat) (h : CacheInv c) (id : RId) :
   | none => rfl
   | some r => rfl
 
+/-! ### the variant switch, regenerated -/
+
+/-- `roundCache.append` has one of the two shapes the model knows, and `Gen.replaceSameIndex` says which: "if the index is
+cached return false, else store and return true" (first wins) or "remember whether it was cached, store, return not
+cached" (newest wins); `partialCache.Append` uses the result only to record the id (checked by the extractor) -/
+theorem tie_cache_append_variant :
+    Gen.cacheAppendShape = (if Gen.replaceSameIndex then
+      ["idx,err:=r.scheme.ThresholdScheme.IndexOf(p.GetPartialSig())", "if err!=nil", "_,seen:=r.sigs[idx]",
+       "r.sigs[idx]=p.GetPartialSig()", "return !seen"]
+    else
+      ["idx,err:=r.scheme.ThresholdScheme.IndexOf(p.GetPartialSig())", "if err!=nil", "if _,seen:=r.sigs[idx];seen",
+       "r.sigs[idx]=p.GetPartialSig()", "return true"]) := by decide
+
 /-! ### non-vacuity -/
+/-- the two variants on a second partial of signer 7 for the same (round, prev): one entry either way, the first / the newest bytes -/
+example : (Cache.run 1 [.append ⟨5, [1], [0, 7, 9]⟩, .append ⟨5, [1], [0, 7, 3]⟩] false).sigOf (5, [1]) 7 = some [0, 7, 9] ∧
+    (Cache.run 1 [.append ⟨5, [1], [0, 7, 9]⟩, .append ⟨5, [1], [0, 7, 3]⟩] true).sigOf (5, [1]) 7 = some [0, 7, 3] ∧
+    (Cache.run 1 [.append ⟨5, [1], [0, 7, 9]⟩, .append ⟨5, [1], [0, 7, 3]⟩] true).roundLen 5 [1] = some 1 ∧
+    ((Cache.run 1 [.append ⟨5, [1], [0, 7, 9]⟩, .append ⟨5, [1], [0, 7, 3]⟩] true).rcvdOf 7).length = 1 := by decide
 example : (Cache.run 1 [.append ⟨5, [1], [0, 7, 9]⟩, .append ⟨5, [1], [0, 8, 9]⟩, .append ⟨5, [1], [0, 7, 3]⟩]).roundLen 5 [1] = some 2 := by decide
 
 
